@@ -190,10 +190,7 @@ func c11Check(r *vkit.Run, in c11Input, replay []int) {
 func c11Classify(c11Input, engResult, []mockq.Rec, []int64) string { return "" }
 
 func c11Run(r *vkit.Run) {
-	bound := 0
-	if r.Thorough() {
-		bound = 1
-	}
+	bound := 1
 	idx := 0
 	for _, sub := range subsets(len(c11Series), 4) {
 		if len(sub) == 0 {
